@@ -668,3 +668,54 @@ def run_scan_head(run, P):
         solve(f, Env(), on_event, None, keys, R,
               key_fn=lambda e: (tuple(sorted((k, v) for k, v in e.atoms.items() if S in k and '->session' in k)), tuple(e.nullf(h) for h in sorted(heads))))
     run.require_count(n >= 1 or run.fixture_mode or run.cfg != 'base', 'R-CNT-CON(i): no unlink-with-predecessor scan over a session\'s queue nodes found (expected coap_cancel_session_messages)')
+
+
+PARK = 'coap_session_delay_pdu'
+# what may decide that a message is parked instead of transmitted (fields of the session / its socket / the message)
+PARK_REASONS = {'state', 'type', 'con_active', 'flags', 'proto', 'nstart'}
+
+
+def run_park_reasons(run, P, fname='coap_send_pdu'):
+    """R-CNT-CON (j): NSTART holds back Confirmables only.  In the transmit function every call of coap_session_delay_pdu() (the message is
+    parked in the session's delay queue instead of being sent) is controlled only by conditions over the session state (not established
+    yet), the NSTART gate (message type and con_active) and the transport's readiness (socket flags).  A condition over anything else -
+    `session->delayqueue` non-empty, say, "to keep the order" - parks Non-confirmables, ACKs and Resets behind a held Confirmable until an
+    unrelated exchange completes.  And the NSTART gate itself is conjoined with the Confirmable test: the con_active comparison that leads
+    to a park is reached only on paths that know the message Confirmable."""
+    from core.prog import control_deps
+    from core.facts import AnalysisBroken
+    run.rule('R-CNT-CON')
+    if not P.has(fname):
+        raise AnalysisBroken('R-CNT-CON (j): %s not found' % fname)
+    f = P.func(fname)
+    cd = control_deps(f)
+    B = f['B']
+    sites = [(b, ev) for b, ev in P.events(f) if any(isinstance(x, dict) and x.get('k') == 'call' and x.get('fn') == PARK for x in walk(ev['e'])) and (ev.get('top') or ev['e'].get('k') == 'ret')]
+    if not sites:
+        raise AnalysisBroken('R-CNT-CON (j): %s() no longer calls %s()' % (fname, PARK))
+    seen = set()
+    for b, ev in sites:
+        if ev['loc'] in seen:
+            continue
+        seen.add(ev['loc'])
+        run.instance('R-CNT-CON', '%s: park at %s' % (fname, ev['loc'].rsplit(':', 1)[-1]))
+        for (cb, idx) in sorted(cd.get(b['id'], ())):
+            c = (B[cb].get('term') or {}).get('cond')
+            if c is None:
+                continue
+            fields = set()
+            for x in walk(c):
+                if isinstance(x, dict) and x.get('k') == 'mem':
+                    fields.add(x['f'])
+            # keep the innermost field of every access path: session->sock.flags -> flags
+            inner = set()
+            for x in walk(c):
+                if isinstance(x, dict) and x.get('k') == 'mem' and not any(isinstance(y, dict) and y.get('k') == 'mem' and strip(y.get('b')) is x for y in walk(c)):
+                    inner.add(x['f'])
+            foreign = sorted(inner - PARK_REASONS)
+            run.oblige('R-CNT-CON', not foreign, '%s:park-reason:%s' % (fname, short(c)[:40]))
+            if foreign:
+                run.violation('R-CNT-CON', fname, B[cb].get('term', {}).get('loc') or ev['loc'], 'park-decided-by:%s' % ','.join(foreign),
+                              'the message is parked in the delay queue (%s) under the condition `%s`, which reads %s: only the session state, the NSTART gate '
+                              '(Confirmable and con_active) and the transport\'s readiness may hold a message back - this parks Non-confirmables, ACKs and Resets behind '
+                              'a Confirmable that NSTART holds' % (ev['loc'].rsplit('/', 1)[-1], short(c)[:80], ', '.join(foreign)))
